@@ -22,12 +22,9 @@ ID = "C02"
 LEVEL = "model_checking"
 MIN_OUTCOMES = 3
 MANIFEST = {
-    "text": "Round trip render -> recognise -> render on the real library entry points for EVERY calendar date of the stated "
-    "range x every calendar block (quick 2001-2030+2097-2099 plus, for four-digit years, 1000-1001, 1899-1901, 1999-2000, 2399-2401, 9998-9999; thorough 1000-01-01..9999-12-31 for four-digit years, 2001-2099 for two-digit years), "
-    "for grammar patterns x covering value states, and along chains of real `test` bumps whose every output is fed back as input and "
-    "through the config loader/`show`.",
-    "note": "values outside the alphabets, inherently ambiguous glued patterns and year-less calendar patterns are outside G",
-    "technique": "explicit-state exploration: exhaustive date/value enumeration + bump chains on the real code, round-trip invariant per state",
+    'text': 'Round trip render -> recognise -> render on the real library entry points for EVERY calendar date of the stated range x every calendar block (quick 2001-2030+2097-2099 plus, for four-digit years, 1000-1001, 1899-1901, 1999-2000, 2399-2401, 9998-9999; thorough 1000-01-01..9999-12-31 for four-digit years, 2001-2099 for two-digit years), for grammar patterns x covering value states, for patterns with line anchors at their edges incl. a literal ^/$ next to the anchor (^P, P$, ^^P, P$$, `$Rev: P $$`), and along chains of real `test` bumps whose every output is fed back as input and through the config loader/`show`.',
+    'note': 'values outside the alphabets, inherently ambiguous glued patterns and year-less calendar patterns are outside G',
+    'technique': 'explicit-state exploration: exhaustive date/value enumeration + bump chains on the real code, round-trip invariant per state',
 }
 RULE = (
     "state = (pattern, part values); one evaluation = render/recognise/render on the real code; distinct non-trivial = distinct "
